@@ -406,7 +406,7 @@ fn flatten(doc: &Value, t: &Table) -> Flat {
     let mut dedup: Vec<(String, Value, usize)> = vec![];
     for (ptr, place, n) in nodes {
         let key = json!({"place": place, "self": n["self"], "kws": n["kws"]});
-        match dedup.iter_mut().find(|(_, k, _)| *k == key) { Some(d) => d.2 += 1, None => dedup.push((ptr, key, 1)) }
+        match dedup.iter_mut().find(|(_, k, _)| k["self"] == key["self"] && k["kws"] == key["kws"]) { Some(d) => d.2 += 1, None => dedup.push((ptr, key, 1)) }
     }
     let nodes: Vec<Value> = dedup.into_iter().map(|(ptr, k, c)| json!({"ptr": ptr, "place": k["place"], "self": k["self"], "kws": k["kws"], "cnt": c})).collect();
     let schemes: Vec<Value> = doc["components"]["securitySchemes"].as_object().unwrap_or(&empty).iter()
@@ -482,8 +482,11 @@ fn request_from_doc(doc: &Value, tmpl: &str, method: &str, op: &Value) -> Req {
         body_for(mime, &instance(doc, &c["schema"], 0), &mut rq);
     }
     let mut cookies = vec![];
+    let mut used: Vec<String> = vec![];
     for req in arr(&op["security"]) {
         for name in req.as_object().map(|m| m.keys().cloned().collect::<Vec<_>>()).unwrap_or_default() {
+            if used.contains(&name) { continue }   // every scheme the operation names, once
+            used.push(name.clone());
             let sc = &doc["components"]["securitySchemes"][&name];
             match (s(&sc["type"]), s(&sc["scheme"])) {
                 ("http", "bearer") => rq.headers.push(("Authorization".into(), format!("Bearer {}", valid_token()))),
@@ -570,7 +573,7 @@ pub fn run(scn: &Value) -> Value {
     for (tmpl, method, op) in &flat.ops {
         let rq = request_from_doc(&doc, tmpl, method, op);
         let (status, h) = exec(&router, &rq.bytes());
-        reach.push(json!({"raw": tmpl, "method": method.to_uppercase(), "h": h, "status": status, "req": rq.show()}));
+        reach.push(json!({"raw": tmpl, "method": method.to_uppercase(), "h": h, "status": status, "req": util::clip(&rq.show(), 140)}));
     }
     // ---- every registered (route, method), requested as the scenario describes it
     let mut routes = vec![]; collect_routes(apps, 1, String::new(), vec![], &t, &mut routes);
@@ -579,7 +582,7 @@ pub fn run(scn: &Value) -> Value {
         for m in arr(&it["methods"]) {
             let rq = request_from_scn(lit, s(m), &it["sig"], guards);
             let (status, h) = exec(&router, &rq.bytes());
-            probes.push(json!({"h": it["h"], "method": m, "ran": h, "status": status, "req": rq.show()}));
+            probes.push(json!({"h": it["h"], "method": m, "ran": h, "status": status, "req": util::clip(&rq.show(), 140)}));
         }
     }
     let mut obs = flat.facts;
